@@ -87,7 +87,7 @@ def gen_function(c: Contract, prop: str, bounded=None) -> FunctionReport:
     try:
         node, fn, kind, sha, fname, owner = load_function(c.key)
         rep.sha, rep.file = sha, fname
-        ex = FullExecutor(c, prop)
+        ex = FullExecutor(c, prop, feas_timeout_ms=int(c.opts.get("feas_timeout_ms", 500)))   # opt-in per contract: budget of a path-feasibility query
         ex.local_types = {k: v for k, v in c.types.items() if isinstance(v, Ty)}
         ex.owner_stack = [owner]
         body = ex.normalise(node.body)
@@ -292,7 +292,7 @@ def gen_lemma(l: Lemma, prop: str, bounded=None) -> FunctionReport:
         node, params = contract_ast(fn)
         ann = fn.__annotations__
         c = Contract("lemma:" + l.name, None, (prop,), "verify")
-        ex = FullExecutor(c, prop)
+        ex = FullExecutor(c, prop, feas_timeout_ms=int(c.opts.get("feas_timeout_ms", 500)))   # opt-in per contract: budget of a path-feasibility query
         st = State()
         st.ghost["__globals__"] = _globals_of(fn)
         env = {}
